@@ -43,12 +43,15 @@ func envInt(name string, def int64) int64 {
 // variantsFor lists the build variants a property is checked in.
 func variantsFor(prop, tier string) []string {
 	switch prop {
+	// plain-cp: built with the compiler's pointer checking (-d=checkptr, what
+	// -race switches on as well): unsafe pointer arithmetic that leaves its
+	// allocation is a fatal error there
 	case "C09":
-		return []string{"plain", "plain-b16", "plain-b96"}
+		return []string{"plain", "plain-b16", "plain-b96", "plain-cp"}
 	case "C06", "C12":
-		return []string{"plain", "plain-b96"}
+		return []string{"plain", "plain-b96", "plain-cp"}
 	case "C11":
-		return []string{"plain"}
+		return []string{"plain", "plain-cp"}
 	case "C19", "C20":
 		return []string{"plain", "inst-race"}
 	case "C10":
@@ -244,10 +247,11 @@ func cmdCheck(args []string) int {
 	rn := newRunner(b, timeout)
 
 	var variants []*variant
-	for _, name := range variantsFor(*prop, *tier) {
-		if *onlyVariant != "" && name != *onlyVariant {
-			continue
-		}
+	names := variantsFor(*prop, *tier)
+	if *onlyVariant != "" {
+		names = []string{*onlyVariant} // (development: any variant, also unlisted ones)
+	}
+	for _, name := range names {
 		v, err := b.build(name)
 		if err != nil {
 			fmt.Fprintln(os.Stderr, "BUILD FAILED (infrastructure, not a verdict):", err)
